@@ -22,7 +22,7 @@ import ast
 
 from sa import fields as F
 from sa.fields import is_term, leaves, term_str, Eval, Unrecognised, NONE, ABSENT
-from sa.astutil import where, dump, kwargs_of, field_of, walk_no_nested, strip_us
+from sa.astutil import where, dump, kwargs_of, field_of, walk_no_nested, strip_us, if_chain
 from sa.model import AnalysisError, body_nodoc, ClassInfo
 
 AXES = ("taxa", "vrnt", "trait")
@@ -568,21 +568,22 @@ def check_dispatch(prog, rep, K, ai):
         construct = "%s.%s" % (K.qualname, g)
         rep.saw(f)
         branches = []   # (axis name, call node or None, raises?)
-        chain = [s for s in body_nodoc(f.node) if isinstance(s, ast.If)]
-        # the dispatch chain is the If whose tests mention `axis`
-        disp = [s for s in chain if _axis_test(s.test) is not None]
-        if len(disp) != 1:
-            if not disp:
-                rep.unrec("R6-dispatch", construct, "no dispatch chain on `axis` found")
-            else:
-                rep.unrec("R6-dispatch", construct, "several dispatch chains")
+        fbody = body_nodoc(f.node)
+        # the dispatch chain starts at the first If whose test mentions `axis` (elif nesting or sibling Ifs with returning bodies alike)
+        first = [k for k, s in enumerate(fbody) if isinstance(s, ast.If) and _axis_test(s.test) is not None]
+        if not first:
+            rep.unrec("R6-dispatch", construct, "no dispatch chain on `axis` found")
             continue
-        node = disp[0]
+        branches, tail = if_chain(fbody, first[0])
+        members = {id(b[2]) for b in branches}
+        if any(isinstance(s, ast.If) and _axis_test(s.test) is not None and id(s) not in members for s in fbody):
+            rep.unrec("R6-dispatch", construct, "several dispatch chains")
+            continue
         ok = True
         covered = set()
         recv_self = "cls" if f.kind == "classmethod" else "self"
-        while node is not None:
-            at = _axis_test(node.test)
+        for bi, (btest, bbody, node) in enumerate(branches):
+            at = _axis_test(btest)
             if at is None:
                 rep.unrec("R6-dispatch", construct, "branch test not modelled: %s" % dump(node.test)[:60])
                 ok = False
@@ -632,16 +633,11 @@ def check_dispatch(prog, rep, K, ai):
                     else:
                         ok = check_forwarding(rep, construct, f, c, callee) and ok
                 covered.add(A)
-            # next branch
-            if len(node.orelse) == 1 and isinstance(node.orelse[0], ast.If):
-                node = node.orelse[0]
-            else:
-                tail = node.orelse
-                if not tail or not any(isinstance(s, ast.Raise) for s in tail):
-                    rep.violate("R6-dispatch", construct, "an axis without a branch is silently ignored (no raise)", where(f, node),
-                                "else: raise ValueError", "fall through")
-                    ok = False
-                node = None
+        else:
+            if not tail or not any(isinstance(s, ast.Raise) for s in tail):
+                rep.violate("R6-dispatch", construct, "an axis without a branch is silently ignored (no raise)", where(f, branches[-1][2]),
+                            "else: raise ValueError", "fall through")
+                ok = False
         # every labelled axis of the class for which the specific method exists must have a branch
         for A in ai.axes:
             if prog.lookup_method(K, "%s_%s" % (g, A)) is not None and A not in covered:
